@@ -238,6 +238,7 @@ pub const POLICY_NOATIME: u8 = 2;
 pub const ENV_NONE: u8 = 0;
 pub const ENV_FULL: u8 = 1; // rebinding, unbinding (eviction / external deletion), mkdir, restamping
 pub const ENV_NO_UNBIND: u8 = 2; // eviction out of play (C04)
+pub const ENV_PUT_ONLY: u8 = 3; // peers only put/ensure: a present key is never rebound or removed
 
 pub const TRACE_LEN: usize = 12;
 
@@ -272,6 +273,8 @@ pub struct Kfs {
     pub evicted_by_us: u8, // names removed by our unlink in a cache dir
     pub tmp_seq: u8,
     pub vanish_a_at_dstat: bool, // a peer unlinks key `a` between readdir and stat
+    pub op_begun: bool,
+    pub env_seq: u16,
 }
 
 pub static mut K: Kfs = Kfs {
@@ -301,7 +304,116 @@ pub static mut K: Kfs = Kfs {
     evicted_by_us: 0,
     tmp_seq: 0,
     vanish_a_at_dstat: false,
+    op_begun: false,
+    env_seq: 0,
 };
+
+// ---- scenario dump (replay support) -----------------------------------------------------------------
+// When `kv_cfg::DUMP` is true (only in the re-run that produces a counterexample for replay),
+// every value a native replay needs is routed through a fresh symbolic variable constrained to be
+// equal to it, so that it shows up in CBMC's trace (which omits constant-propagated assignments).
+pub static mut DUMPV: [u64; 1024] = [0; 1024];
+pub static mut DUMPN: usize = 0;
+
+pub const OP_PLAIN_GET: i64 = 1;
+pub const OP_PLAIN_TOUCH: i64 = 2;
+pub const OP_PLAIN_SET: i64 = 3;
+pub const OP_PLAIN_PUT: i64 = 4;
+pub const OP_RAW_UPDATE: i64 = 10;
+pub const OP_RAW_TOUCHINS: i64 = 11;
+pub const OP_RAW_TOUCH: i64 = 12;
+pub const OP_RAW_COLLECT: i64 = 13;
+pub const OP_RAW_APPLY: i64 = 14;
+pub const OP_PRUNE_CAP0: i64 = 15;
+pub const OP_CLEANUP_TEMP: i64 = 16;
+pub const OP_SHARDED_GET: i64 = 20;
+pub const OP_SHARDED_TOUCH: i64 = 21;
+pub const OP_SHARDED_SET: i64 = 22;
+pub const OP_SHARDED_PUT: i64 = 23;
+pub const OP_STACK: i64 = 30;
+
+pub const T_CFG: u64 = 1;
+pub const T_DIR: u64 = 2;
+pub const T_SLOT: u64 = 3;
+pub const T_INO: u64 = 4; // + field number (0..15)
+pub const T_OP: u64 = 24;
+pub const T_CALL: u64 = 25;
+pub const T_ENV: u64 = 26;
+pub const T_FAULT: u64 = 27;
+pub const T_ENVINO: u64 = 32; // + field number
+
+pub fn dump(tag: u64, idx: u64, value: i64) {
+    if crate::kv_cfg::DUMP {
+        let enc: u64 = (1u64 << 63) | (tag << 56) | ((idx & 0xfff) << 44) | (((value + (1i64 << 43)) as u64) & ((1u64 << 44) - 1));
+        let v: u64 = kani::any();
+        kani::assume(v == enc);
+        unsafe {
+            if DUMPN < 1024 {
+                DUMPV[DUMPN] = v;
+                DUMPN += 1;
+            }
+        }
+    }
+}
+
+fn dump_inode(tag: u64, idx: u64, n: &Inode) {
+    dump(tag, idx, n.used as i64);
+    dump(tag + 1, idx, n.nlink as i64);
+    dump(tag + 2, idx, n.is_dir as i64);
+    dump(tag + 3, idx, n.mode as i64);
+    dump(tag + 4, idx, n.mt_s);
+    dump(tag + 5, idx, n.mt_ns as i64);
+    dump(tag + 6, idx, n.at_s);
+    dump(tag + 7, idx, n.at_ns as i64);
+    dump(tag + 8, idx, n.content as i64);
+    dump(tag + 9, idx, n.key_tag as i64);
+    dump(tag + 10, idx, n.complete as i64);
+    dump(tag + 11, idx, n.dirty as i64);
+    dump(tag + 12, idx, n.own as i64);
+    dump(tag + 13, idx, n.foreign as i64);
+    dump(tag + 14, idx, n.published as i64);
+}
+
+/// Called by harnesses right before the operation under test: records the whole pre-state.
+pub fn begin_op(opcode: i64, a0: i64, a1: i64, a2: i64) {
+    let st = k();
+    st.op_begun = true;
+    if !crate::kv_cfg::DUMP {
+        return;
+    }
+    dump(T_CFG, 0, st.policy as i64);
+    dump(T_CFG, 1, st.gran_s as i64);
+    dump(T_CFG, 2, st.env as i64);
+    dump(T_CFG, 3, st.auto_sync as i64);
+    dump(T_CFG, 4, st.fail_at as i64);
+    dump(T_CFG, 5, st.fail_errno as i64);
+    dump(T_CFG, 6, st.now_s);
+    dump(T_CFG, 7, st.now_ns as i64);
+    let mut d = 0;
+    while d < ND {
+        let dd = &st.dir[d];
+        dump(T_DIR, d as u64, (dd.exists as i64) | ((dd.readonly_root as i64) << 1) | ((dd.shared as i64) << 2));
+        if dd.exists {
+            let mut s = 0;
+            while s < NS {
+                dump(T_SLOT, (d * 8 + s) as u64, dd.slot[s] as i64);
+                s += 1;
+            }
+        }
+        d += 1;
+    }
+    let mut i = 0;
+    while i < NI {
+        if st.ino[i].used {
+            dump_inode(T_INO, i as u64, &st.ino[i]);
+        }
+        i += 1;
+    }
+    dump(T_OP, 0, opcode);
+    dump(T_OP, 1, a0);
+    dump(T_OP, 2, a1);
+    dump(T_OP, 3, a2);
+}
 
 pub fn k() -> &'static mut Kfs {
     unsafe { &mut K }
@@ -316,6 +428,7 @@ pub const ENOTDIR: i32 = 20;
 pub const EMFILE: i32 = 24;
 pub const ENOSPC: i32 = 28;
 pub const ESTALE: i32 = 116;
+pub const EXDEV: i32 = 18;
 
 pub fn err(code: i32) -> io::Error {
     io::Error::from_raw_os_error(code)
@@ -537,6 +650,20 @@ fn free_inode() -> u8 {
     NONE
 }
 
+/// Records one environment action: it happens right before our call number `calls + 1`.
+fn env_dump(d: u8, s: u8, action: i64, n: Option<&Inode>) {
+    if !crate::kv_cfg::DUMP {
+        return;
+    }
+    let st = k();
+    let seq = st.env_seq as u64;
+    st.env_seq += 1;
+    dump(T_ENV, seq, ((st.calls as i64) + 1) | ((d as i64) << 16) | ((s as i64) << 24) | (action << 32));
+    if let Some(n) = n {
+        dump_inode(T_ENVINO, seq, n);
+    }
+}
+
 /// One rely step: the shared part of the filesystem moves to any state other participants'
 /// protocol steps can produce (DESIGN.md §2.3).
 fn env_step() {
@@ -556,6 +683,7 @@ fn env_step() {
                     if p != NONE {
                         st.dir[p as usize].exists = true;
                     }
+                    env_dump(d, NONE, 4, None);
                 }
             } else if kind == KIND_CACHE {
                 let mut s = 0u8;
@@ -568,9 +696,11 @@ fn env_step() {
                             st.ino[cur as usize].nlink -= 1;
                             st.dir[d as usize].slot[s as usize] = NONE;
                             st.env_unbound = true;
+                            env_dump(d, s, 1, None);
                         }
                     } else if choice == 2 {
                         // a peer's set/put publishes another complete value for this key
+                        // (ENV_PUT_ONLY: only while the key is absent)
                         if cur == NONE || st.env == ENV_FULL || st.env == ENV_NO_UNBIND {
                             let f = free_inode();
                             if f != NONE {
@@ -603,9 +733,11 @@ fn env_step() {
                                 };
                                 st.dir[d as usize].slot[s as usize] = f;
                                 st.env_rebound = true;
+                                let copy = st.ino[f as usize];
+                                env_dump(d, s, 2, Some(&copy));
                             }
                         }
-                    } else if choice == 3 {
+                    } else if choice == 3 && st.env != ENV_PUT_ONLY {
                         // a peer touches / re-queues the entry
                         if cur != NONE && !st.ino[cur as usize].own {
                             let (ms, mns) = any_time();
@@ -614,6 +746,8 @@ fn env_step() {
                             st.ino[cur as usize].mt_ns = mns;
                             st.ino[cur as usize].at_s = as_;
                             st.ino[cur as usize].at_ns = ans;
+                            let copy = st.ino[cur as usize];
+                            env_dump(d, s, 3, Some(&copy));
                         }
                     }
                     s += 1;
@@ -633,11 +767,14 @@ fn tick(kind: u8, dir: u8, slot: u8) -> Option<i32> {
     env_step();
     trace(kind, dir, slot);
     st.calls += 1;
+    dump(T_CALL, st.calls as u64, (kind as i64) | ((dir as i64) << 8) | ((slot as i64) << 16));
     if (kind as usize) < NCALLKINDS && st.kind_calls[kind as usize] < 250 {
         st.kind_calls[kind as usize] += 1;
     }
     if st.calls == st.fail_at && !st.failed {
         st.failed = true;
+        dump(T_FAULT, 0, (st.calls as i64) | ((kind as i64) << 16) | ((st.kind_calls[kind as usize] as i64) << 24));
+        dump(T_FAULT, 1, st.fail_errno as i64);
         return Some(st.fail_errno);
     }
     None
@@ -1538,6 +1675,22 @@ pub fn s_vec_new<T>() -> Vec<T> {
     Vec::with_capacity(8)
 }
 
+// ---- formatting ---------------------------------------------------------------------------------
+/// `sharded::format_id` without the `format!` machinery (whose runtime template parser makes
+/// symbolic execution crawl): ".kismet_" + four lowercase hex digits.  The real `format_id` is
+/// decided separately (harness c12_format_id); harnesses using this model only need ids < 16.
+pub fn s_format_id(shard: usize) -> String {
+    assert!(shard < 65536, "KV-BOUND: shard index beyond the modelled range");
+    let hex = b"0123456789abcdef";
+    let mut v: Vec<u8> = Vec::with_capacity(16);
+    v.extend_from_slice(b".kismet_");
+    v.push(hex[(shard >> 12) & 15]);
+    v.push(hex[(shard >> 8) & 15]);
+    v.push(hex[(shard >> 4) & 15]);
+    v.push(hex[shard & 15]);
+    unsafe { String::from_utf8_unchecked(v) }
+}
+
 // ---- randomness -----------------------------------------------------------------------------
 pub fn s_regenerate(c: &std::cell::RefCell<u64>) -> u64 {
     let r: u64 = kani::any();
@@ -1577,6 +1730,9 @@ pub fn reset() {
     st.env = ENV_NONE;
     st.auto_sync = false;
     st.vanish_a_at_dstat = false;
+    st.op_begun = false;
+    st.env_seq = 0;
+    unsafe { DUMPN = 0; }
     let (s, ns) = any_time();
     st.now_s = s;
     st.now_ns = ns;
@@ -1680,6 +1836,11 @@ pub fn write_value(f: &mut File, content: u8, key: u8, complete: bool) {
     st.fd[fi].off = 1;
 }
 
+/// The caller reads the handle to the end.
+pub fn consume(f: &mut File) {
+    k().fd[fd_index(f)].off = 1;
+}
+
 pub fn inode_of(f: &File) -> Inode {
     let st = k();
     st.ino[st.fd[fd_index(f)].ino as usize]
@@ -1748,6 +1909,7 @@ macro_rules! kfs_harness {
         #[kani::stub(tempfile::tempfile, crate::kv_kfs::s_tempfile)]
         #[kani::stub(libc::close, crate::kv_kfs::s_libc_close)]
         #[kani::stub(crate::trigger::regenerate, crate::kv_kfs::s_regenerate)]
+        #[kani::stub(crate::sharded::format_id, crate::kv_kfs::s_format_id)]
         #[kani::stub(std::vec::Vec::new, crate::kv_kfs::s_vec_new)]
         $(#[$m])*
         fn $name() $body
